@@ -22,7 +22,7 @@ import (
 // All verdicts compare ground-truth snapshots of the fake database and the answers seen by the fake coordinator.
 
 func init() {
-	Registry["C10"] = Check{Level: "exploration", Fn: runC10}
+	Registry["C10"] = Check{Level: "fault_enumeration", Fn: runC10}
 }
 
 func runC10(r *vc.Run, replay string) {
